@@ -279,6 +279,8 @@ def _builtin_conds(tier, seed):
                     continue          # duplicate keys
                 sels = ('x1', 'base', 'x1sub', 'tuple') if (tier != 'quick' or base in ('IndexError', 'KeyError', 'TypeError')) else ('x1',)
                 for sel in sels:
+                    if base == 'StopIteration' and sel == 'x1sub':
+                        continue      # an uncaught StopIteration subclass leaving a generator is turned into RuntimeError by Python itself (PEP 479)
                     for n in range(1, nmax + 1):
                         if struct in ('cat', 'isp'):
                             splits = [sp for sp in range(0, n + 1) if struct == 'cat' or 0 < sp < n]
